@@ -23,7 +23,7 @@ var errC13 = errors.New("c13: validator failure")
 func genC13(rng *rand.Rand, n int, emit func(Case), dist map[string]int) {
 	creds := []string{"joe:secret", "joe:wrong:secret", "joe:wrong", ":secret", "joe:", "nocolon", "", "jo\xffe:secret", "boom:x", "boomok:x", "a:b:c:secret", "joe:secret:", "ann:pw1", "ann:secret"}
 	keys := []string{"valid-key", "other-key", "boom", "boomok", "", "Valid-Key", "valid-key ", "k2"}
-	lookups := []string{"header:Authorization", "header:X-Api-Key", "query:key", "form:key", "cookie:key", "header:Authorization,query:key", "query:key,cookie:key", "header:X-Api-Key:Token ", "form:key,header:Authorization"}
+	lookups := []string{"header:Authorization", "header:X-Api-Key", "query:key", "form:key", "cookie:key", "header:Authorization,query:key", "query:key,cookie:key", "header:X-Api-Key:Token ", "form:key,header:Authorization", "param:key", "param:key,query:key"}
 	e := echo.New()
 	for it := 0; it < n; {
 		vmode := rng.Intn(3)
@@ -69,10 +69,29 @@ func genC13(rng *rand.Rand, n int, emit func(Case), dist map[string]int) {
 		if !strings.HasSuffix(authPfx, " ") {
 			authPfx += " "
 		}
-		kmw := middleware.KeyAuthWithConfig(middleware.KeyAuthConfig{KeyLookup: lk, AuthScheme: scheme, Validator: func(k string, c echo.Context) (bool, error) {
+		kvalidator := func(k string, c echo.Context) (bool, error) {
 			kcalls = append(kcalls, k)
 			return kval(k)
-		}})(func(c echo.Context) error { ranK = true; return nil })
+		}
+		kcfg := middleware.KeyAuthConfig{KeyLookup: lk, AuthScheme: scheme, Validator: kvalidator}
+		deniedK := 0
+		if rng.Intn(4) == 0 {
+			// an error handler that answers by itself and returns nil (ContinueOnIgnoredError stays off: the handler must still not run)
+			kcfg.ErrorHandler = func(err error, c echo.Context) error {
+				deniedK = http.StatusUnauthorized
+				if _, missing := err.(*middleware.ErrKeyAuthMissing); missing {
+					deniedK = http.StatusBadRequest
+				}
+				return c.NoContent(deniedK)
+			}
+			dist["keyauth_instances_with_custom_error_handler"]++
+		}
+		kmwf := middleware.KeyAuthWithConfig(kcfg)
+		if lk == "header:Authorization" && scheme == "" && kcfg.ErrorHandler == nil && rng.Intn(2) == 0 {
+			kmwf = middleware.KeyAuth(kvalidator) // the short constructor: same defaults
+			dist["keyauth_short_constructor"]++
+		}
+		kmw := kmwf(func(c echo.Context) error { ranK = true; return nil })
 		verd := func(okv bool, err error) int {
 			if err != nil {
 				return 2
@@ -227,6 +246,7 @@ func genC13(rng *rand.Rand, n int, emit func(Case), dist map[string]int) {
 			method := http.MethodGet
 			var cookies []*http.Cookie
 			hdr := http.Header{}
+			var pnames, pvals []string
 			for _, src := range strings.Split(lk, ",") {
 				parts := strings.SplitN(src, ":", 3)
 				if rng.Intn(5) == 0 {
@@ -235,6 +255,11 @@ func genC13(rng *rand.Rand, n int, emit func(Case), dist map[string]int) {
 				for k := 0; k < nv; k++ {
 					v := pick()
 					switch parts[0] {
+					case "param":
+						if len(pnames) < 4 { // (a route has a handful of path parameters, not dozens)
+							pnames = append(pnames, []string{parts[1], parts[1], "other"}[rng.Intn(3)])
+							pvals = append(pvals, v)
+						}
 					case "query":
 						q.Add(parts[1], v)
 					case "form":
@@ -294,7 +319,9 @@ func genC13(rng *rand.Rand, n int, emit func(Case), dist map[string]int) {
 			probe := build() // identical request to read what is present at each location
 			probe.ParseMultipartForm(32 << 20)
 			c := recycledContext(e, req, httptest.NewRecorder())
-			kcalls, ranK = nil, false
+			c.SetParamNames(pnames...)
+			c.SetParamValues(pvals...)
+			kcalls, ranK, deniedK = nil, false, 0
 			code := -1
 			panicked := false
 			func() {
@@ -309,6 +336,8 @@ func genC13(rng *rand.Rand, n int, emit func(Case), dist map[string]int) {
 					} else {
 						code = 0
 					}
+				} else if deniedK != 0 {
+					code = deniedK
 				}
 			}()
 			// what is literally present per configured lookup (prefix removed), for model and reference
@@ -319,6 +348,16 @@ func genC13(rng *rand.Rand, n int, emit func(Case), dist map[string]int) {
 			for _, src := range strings.Split(lk, ",") {
 				parts := strings.SplitN(src, ":", 3)
 				switch parts[0] {
+				case "param":
+					var vs []string
+					for i, nm := range pnames {
+						if nm == parts[1] {
+							vs = append(vs, pvals[i])
+						}
+					}
+					lks = append(lks, L(I(1), LS(vs)))
+					present = append(present, vs...)
+					full = full && len(vs) <= 20
 				case "query":
 					vs := probe.URL.Query()[parts[1]]
 					lks = append(lks, L(I(1), LS(vs)))
